@@ -10,6 +10,10 @@ def snap(system):
     from peppercompiler.system_class import System
     from peppercompiler import DNA_classes as D
     problems = []
+    wiring = []
+
+    def sname(x):
+        return getattr(x, "full_name", None) or getattr(x, "name", repr(x))
 
     def base(b):
         return [b.name.rstrip("*") if b.reversed else b.name, bool(b.reversed), b.length]
@@ -51,6 +55,13 @@ def snap(system):
             structs.append({"name": name, "strands": [x.name for x in s.strands], "struct": s.struct, "opt": "%f" % s.opt,
                             "bases": [base(b) for b in s.base_seqs]})
         kin = [{"name": n, "ins": [x.name for x in k.inputs], "outs": [x.name for x in k.outputs]} for n, k in c.kinetics.items()]
+        # what the enclosing system installed on the structures after they were built: the real upstream structures that stand in
+        # for a declared input structure (read by kinetic finishing), and the component's own port structures
+        for name, s in c.structs.items():
+            act = getattr(s, "actual_structs", None)
+            wiring.append([c.prefix + name, None if act is None else [sname(x) for x in act]])
+        wiring.append([c.prefix + "<ports>", [[(sname(x) if x is not None and x is not False else None) for x in getattr(c, k_, [])]
+                                                for k_ in ("input_structs", "output_structs")]])
         return {"pfx": c.prefix, "seqs": seqs, "strands": strands, "structs": structs, "kinetics": kin}
 
     def inst(o):
@@ -70,7 +81,8 @@ def snap(system):
                         problems.append("system table %s[%s-%s] is not the component's object" % (kind, cname, name))
         return {"kind": "sys", "pfx": o.prefix, "signals": sigs, "lengths": [[n, l] for n, l in o.lengths.items()],
                 "components": [[n, inst(s)] for n, s in o.components.items()]}
-    return {"tree": inst(system), "problems": problems}
+    tree = inst(system)
+    return {"tree": tree, "problems": problems, "wiring": wiring}
 
 
 if __name__ == "__main__":
